@@ -355,7 +355,7 @@ PROPS = {
                        "agree and order by the fields with names in the RFC 4034 6.1 order; canonical_cmp == octet order of the canonical "
                        "RDATA (integers big-endian, names lower-cased in wire form; for SOA this needs that wire-form names are prefix-free: "
                        "lemma_abs_concat). "
-                       "Hashing (unit namehash, real text of Hash for Label, Name, RelativeName and ParsedName, names of every length, any "
+                       "CAA (unit charstr, real text of the impls of Caa, CaaTag, CaaFlags): == is (flags, tag up to ASCII case, value), partial_cmp and cmp order by those fields and are Equal exactly on == values, canonical_cmp == octet order of the RDATA (RFC 4034 6.3: nothing in a CAA record is case-folded). Hashing (unit namehash, real text of Hash for Label, Name, RelativeName and ParsedName, names of every length, any "
                        "hasher): what reaches the hasher is the label's length octet and its octets lower-cased, label after label -- exactly the "
                        "canonical wire form of the name; lemma_equal_names_hash_alike: names that are equal (label-wise up to case) feed any hasher "
                        "the same octets, across representations. "
@@ -897,6 +897,7 @@ PROPS = {
         "replays": [
             {"bin": "d35_opt_push_ignores_option_header", "finding": "D35"},
             {"bin": "d45_dnskey_parse_long", "finding": "D45"},
+            {"bin": "d59_caa_tag_long", "finding": "D59"},
             {"bin": "d40_infallible_constructors_long_rdata", "finding": "D40", "expect": "fail"},
             {"bin": "d41_ipseckey_new_vs_parse", "finding": "D41", "expect": "fail"},
         ],
@@ -940,7 +941,12 @@ PROPS = {
                        "bitmaps of every length); and the iteration is exact: new() stands on the first set bit, every next() reports the type of "
                        "the bit it stands on (window << 8 | octet << 3 | bit) and moves to the next set bit without passing one (the count "
                        "bits_after of set bits still to come drops by exactly one per item and is zero when the iterator is exhausted), so the types "
-                       "listed are exactly the bits set.",
+                       "listed are exactly the bits set. Unit charstr (base/charstr.rs, rdata/rfc1035/hinfo.rs, rdata/naptr.rs via rdnames, rdata/caa.rs, real text): "
+                       "character strings, HINFO and CAA -- CaaTag::{check_slice, new, from_octets, from_octets_unchecked, compose_len, compose, parse} keep the "
+                       "tag invariant (letters and digits, at most 255 octets: the safety condition of the unchecked constructors; this contract exposed D59), "
+                       "Caa::parse accepts exactly a flags octet, a tag and any value, consumes all of the record data and returns a value whose wire form "
+                       "(flags | length-prefixed tag | value) is the octets read; rdlen() is the length of what compose_rdata() and compose_canonical_rdata() append "
+                       "(on values within the 65 535 limit, which the infallible constructor does not enforce: D40).",
         "assumptions": [
             "AsRefOctets models the bound AsRef<[u8]>: an octets value has one fixed content returned by every as_ref() call",
             "Rtype (int_enum! macro) is modelled as a 16-bit code with from_int/to_int",
